@@ -366,6 +366,22 @@ fn observe(tree: &crate::Tree, reads: &[u64]) -> std::result::Result<Obs, String
 			out.push((k.user_key().to_vec(), k.timestamp(), k.is_tombstone(), if k.is_tombstone() { Vec::new() } else { it.value().map_err(|e| format!("history value failed: {e}"))? }));
 			ok = it.next().map_err(|e| format!("history step failed: {e}"))?;
 		}
+		// the same window walked backward lists the same
+		let mut it = tx.history_with_options(b"a".to_vec(), b"z".to_vec(), &opts).map_err(|e| format!("history [{lo},{hi}] failed: {e}"))?;
+		let mut back = Vec::new();
+		let mut ok = it.seek_last().map_err(|e| format!("history seek failed: {e}"))?;
+		let mut guard = 0;
+		while ok && guard < 100 {
+			guard += 1;
+			let k = it.key();
+			back.push((k.user_key().to_vec(), k.timestamp(), k.is_tombstone(), if k.is_tombstone() { Vec::new() } else { it.value().map_err(|e| format!("history value failed: {e}"))? }));
+			ok = it.prev().map_err(|e| format!("history step failed: {e}"))?;
+		}
+		back.reverse();
+		if norm(&back) != norm(&out) && fwd_bwd.is_none() {
+			let show = |l: &Vec<(Vec<u8>, u64, bool, Vec<u8>)>| l.iter().map(|e| format!("{}@{}", String::from_utf8_lossy(&e.0), e.1)).collect::<Vec<_>>();
+			fwd_bwd = Some(format!("history with timestamp window [{lo},{hi}]: the backward traversal lists {:?}, the forward traversal lists {:?}", show(&back), show(&out)));
+		}
 		lists.push(out);
 	}
 	Ok((gets, lists, fwd_bwd))
